@@ -1140,9 +1140,10 @@ func (ex *Exec) convert(st *State, v *Val, to types.Type, pos token.Pos) *Val {
 		}
 	}
 	if sl, ok := to.Underlying().(*types.Slice); ok && isByte(sl.Elem()) && isStringT(from) {
-		s := ex.freshVal(to, "s2b")
-		st.assume(eq(s.kid("len").S, "(str.len "+v.S+")"))
-		return s
+		// the bytes of a string: a deterministic (uninterpreted) function of the string
+		ex.eng.smt.declFun("uf_bytesOf", "(declare-fun uf_bytesOf (String) (Array Int Int))")
+		sh := ex.eng.sh.shapeOf(to)
+		return &Val{Sh: sh, T: to, Kids: []*Val{ex.intVal("(str.len "+v.S+")", types.Typ[types.Int]), {Sh: sh.Kids[1], S: "(uf_bytesOf " + v.S + ")"}}}
 	}
 	// same underlying shape: relabel
 	if v.Sh != nil && (v.Sh == toSh || shapesCompatible(v.Sh, toSh)) {
